@@ -125,7 +125,12 @@ def replay_state(ctx, gridmod, c, h):
 
 
 def spec_to_code(ctx, gridmod):
-    res = ctx.tlc("GridWeightsDump", "MC_GridWeights_%s.cfg" % ctx.tier, timeout=3000, heap="6g")
+    for cfg in (["quick"] if ctx.tier == "quick" else ["thorough", "thorough2"]):
+        _spec_to_code(ctx, gridmod, cfg)
+
+
+def _spec_to_code(ctx, gridmod, cfg):
+    res = ctx.tlc("GridWeightsDump", "MC_GridWeights_%s.cfg" % cfg, timeout=6000, heap="6g")
     if res.violated:
         raise Machinery("GridWeights.tla: model violates contract: %s" % res.violated)
     cases = res.printed()
@@ -140,7 +145,7 @@ def spec_to_code(ctx, gridmod):
             ctx.sample({"spec->code": {"cells": c["cells"], "coarse": c["inter"][1]["g"], "expected_cells": c["inter"][1]["cells"],
                                        "expected_counts": c["inter"][1]["counts"]}})
     ctx.traces += len(cases)
-    ctx.part("spec_to_code", cell_sets=len(cases), coarse_grids_each=len(cases[-1]["inter"]),
+    ctx.part("spec_to_code_" + cfg, cell_sets=len(cases), coarse_grids_each=len(cases[-1]["inter"]),
              point_sets_each=len(cases[-1]["voro"]), states=res.distinct, exhaustive=True)
 
 
